@@ -59,8 +59,9 @@ def prep_schema(detector, medium_index, illum_wavelen, illum_polarization):
     illum_wavelen = ensure_array(detector.illum_wavelen)
     illum_polarization = detector.illum_polarization
 
-    if len(illum_wavelen) > 1 or ensure_array(illum_polarization).ndim == 2:
-        #  multiple illuminations to calculate
+    if (len(illum_wavelen) > 1 or ensure_array(illum_polarization).ndim == 2
+            or illumination in getattr(detector.illum_wavelen, 'dims', ())):
+        #  multiple illuminations to calculate (or one labelled channel)
         if illumination in illum_polarization.dims:
             if isinstance(illum_wavelen, xr.DataArray):
                 pass
